@@ -87,6 +87,13 @@ def run(chk):
             Ghost.copies[path].update(self)
         def close(self):
             self.closed = True
+        # the read-only views of the real EKO a caller may legitimately use
+        @property
+        def evolgrid(self):
+            return list(self)
+        @property
+        def mu2grid(self):
+            return [ep[0] for ep in self]
 
     Ghost.copies = {}
     mu1 = T.var("mu1")
@@ -100,7 +107,8 @@ def run(chk):
                 fin = Ghost((mu1, 5), None)
                 targets = {}
                 KEY_MATCH = (mu1 * mu1, 5)
-                for i, q in enumerate(((T.var("q1"), 5), (T.var("q2"), 5), KEY_MATCH)):
+                # the last target has the scale of the matched point but another number of flavours (a threshold): it is a different evolution point
+                for i, q in enumerate(((T.var("q1"), 5), (T.var("q2"), 5), KEY_MATCH, (mu1 * mu1, 6))):
                     B, EB = symmat(f"B{i}_", 4).reshape(sh), symmat(f"EB{i}_", 4).reshape(sh)
                     fin[q] = Operator(B, EB if with_err_fin else None)
                     targets[q] = (B, EB)
@@ -122,18 +130,18 @@ def run(chk):
                                    goal="a target already present in the first EKO is not overwritten", replay=rp)
                         continue
                     if q not in res:
-                        chk.fail(f"{tag}.target[{q[0]}].present", "target missing from the result", fn=fn, replay=rp)
+                        chk.fail(f"{tag}.target[{q[0]},nf={q[1]}].present", "target missing from the result", fn=fn, replay=rp)
                         continue
-                    chk.eq_block(f"{tag}.target[{q[0]}].operator", res[q].operator, _dot4(B, A), fn=fn, replay=rp,
+                    chk.eq_block(f"{tag}.target[{q[0]},nf={q[1]}].operator", res[q].operator, _dot4(B, A), fn=fn, replay=rp,
                                  goal="result == dot4(op_fin[q], op_ini[match])  (first EKO applied first, later step to the left)")
                     if with_err_ini and with_err_fin:
                         if res[q].error is None:
-                            chk.fail(f"{tag}.target[{q[0]}].error", "error is None although both errors exist", fn=fn, replay=rp)
+                            chk.fail(f"{tag}.target[{q[0]},nf={q[1]}].error", "error is None although both errors exist", fn=fn, replay=rp)
                         else:
-                            chk.eq_block(f"{tag}.target[{q[0]}].error", res[q].error, _dot4(vnp.abs(B), vnp.abs(EA)) + _dot4(vnp.abs(EB), vnp.abs(A)), fn=fn, replay=rp,
+                            chk.eq_block(f"{tag}.target[{q[0]},nf={q[1]}].error", res[q].error, _dot4(vnp.abs(B), vnp.abs(EA)) + _dot4(vnp.abs(EB), vnp.abs(A)), fn=fn, replay=rp,
                                          goal="error == |later| . |earlier error| + |later error| . |earlier|  (the solver's joining rule)")
                     else:
-                        chk.ground(f"{tag}.target[{q[0]}].error_none", res[q].error is None, fn=fn, goal="error is None unless both errors exist", replay=rp)
+                        chk.ground(f"{tag}.target[{q[0]},nf={q[1]}].error_none", res[q].error is None, fn=fn, goal="error is None unless both errors exist", replay=rp)
                 if path is not None:
                     chk.ground(f"{tag}.first_eko_unchanged", len(ini.keys()) == 1 and ini.copied_to == path and res.closed, fn=fn,
                                goal="with a path the first EKO is left as it was, the copy receives the products and is closed", replay=rp)
